@@ -1003,12 +1003,13 @@ impl Context<'_> {
 
             // the attribute parser wraps the type of a DEFAULT component
             Type::Default(inner, _) => self.to_rust_constants(inner),
+            // OPTIONAL components and extension additions (which become optional) keep their constants
+            Type::Optional(inner) => self.to_rust_constants(inner),
 
             Type::Boolean
             | Type::Null
             | Type::String(..)
             | Type::OctetString(_)
-            | Type::Optional(_)
             | Type::Sequence(_)
             | Type::SequenceOf(..)
             | Type::Set(_)
